@@ -9,6 +9,7 @@ import (
 	"io/fs"
 	"net"
 	"os"
+	"strconv"
 	"sync"
 	"sync/atomic"
 	"time"
@@ -48,6 +49,8 @@ type Event struct {
 	Data []byte `json:"data,omitempty"`
 	// Total reply bytes handed over after this event.
 	Total int `json:"total"`
+	// Expired: a read that found its deadline already in the past (not one of the script's reads).
+	Expired bool `json:"expired,omitempty"`
 }
 
 // Clock is a shared logical clock so transport events and hook events can be ordered.
@@ -69,6 +72,13 @@ type Conn struct {
 	idle   int
 	Writes [][]byte
 	closed bool
+	// Net: behave like a network connection as far as deadlines go. A Read whose deadline has already passed times out
+	// at once without handing anything over; an empty read with NO deadline set blocks until the connection is closed
+	// (the client that forgets the deadline hangs, as it would on a socket); a Write after its deadline fails.
+	Net          bool
+	rdl, wdl     time.Time
+	unblock      chan struct{}
+	ExpiredReads int
 }
 
 // NewConn creates a scripted connection.
@@ -76,7 +86,7 @@ func NewConn(s Script, clk *Clock) *Conn {
 	if clk == nil {
 		clk = &Clock{}
 	}
-	return &Conn{S: s, Clock: clk}
+	return &Conn{S: s, Clock: clk, unblock: make(chan struct{})}
 }
 
 func kindErr(k string) error {
@@ -113,13 +123,43 @@ func (c *Conn) log(op string, n int, err error, data []byte) {
 	c.Log = append(c.Log, Event{Seq: c.Clock.Tick(), Op: op, N: n, Err: errName(err), Data: append([]byte(nil), data...), Total: c.pos})
 }
 
+// forcedExpiry: harness self-test knob. VERIF_EXPIRE_EVERY=n makes every n-th read of a network connection find its
+// deadline expired, which is what a heavily loaded machine does now and then; every check must stay silent under it.
+var expireEvery = func() int64 { n, _ := strconv.Atoi(os.Getenv("VERIF_EXPIRE_EVERY")); return int64(n) }()
+var expireCtr atomic.Int64
+
+func forcedExpiry() bool { return expireEvery > 0 && expireCtr.Add(1)%expireEvery == 0 }
+
 // Read follows the script.
 func (c *Conn) Read(p []byte) (int, error) {
 	c.mu.Lock()
+	if c.Net && !c.rdl.IsZero() && (time.Now().After(c.rdl) || forcedExpiry()) {
+		// (also what happens when the machine is so loaded that the deadline passes between SetReadDeadline and Read:
+		// the client polls again; no scripted step is consumed and the read does not count as one of the script's reads.
+		// It is logged - the client's hook sees it - but marked, so that rules counting the script's reads can skip it)
+		c.ExpiredReads++
+		c.log("read", 0, os.ErrDeadlineExceeded, nil)
+		c.Log[len(c.Log)-1].Expired = true
+		c.mu.Unlock()
+		return 0, os.ErrDeadlineExceeded
+	}
 	c.reads++
 	var n int
 	var err error
 	sleep := 0
+	if c.Net && c.rdl.IsZero() && !c.closed {
+		empty := c.step >= len(c.S.Steps) && (c.S.Tail == "" || c.S.Tail == "deadline")
+		if c.step < len(c.S.Steps) {
+			st := c.S.Steps[c.step]
+			empty = st.N == 0 && (st.Err == "deadline" || st.Err == "deadline-wrapped")
+		}
+		if empty {
+			ch := c.unblock
+			c.mu.Unlock()
+			<-ch // nothing to read and no deadline: a socket read never returns
+			return 0, io.ErrClosedPipe
+		}
+	}
 	if c.S.CancelAtRead > 0 && c.reads == c.S.CancelAtRead && c.Cancel != nil {
 		c.Cancel()
 	}
@@ -164,6 +204,10 @@ func (c *Conn) Write(p []byte) (int, error) {
 		c.log("write", 0, ErrInjected, p)
 		return 0, ErrInjected
 	}
+	if c.Net && !c.wdl.IsZero() && time.Now().After(c.wdl) {
+		c.log("write", 0, os.ErrDeadlineExceeded, p)
+		return 0, os.ErrDeadlineExceeded
+	}
 	c.Writes = append(c.Writes, append([]byte(nil), p...))
 	c.log("write", len(p), nil, p)
 	return len(p), nil
@@ -173,6 +217,9 @@ func (c *Conn) Write(p []byte) (int, error) {
 func (c *Conn) Close() error {
 	c.mu.Lock()
 	defer c.mu.Unlock()
+	if !c.closed && c.unblock != nil {
+		close(c.unblock)
+	}
 	c.closed = true
 	c.log("close", 0, nil, nil)
 	return nil
@@ -206,7 +253,7 @@ func (c *Conn) ReadsAfterComplete() int {
 	n := 0
 	full := false
 	for _, e := range c.Log {
-		if e.Op != "read" {
+		if e.Op != "read" || e.Expired {
 			continue
 		}
 		if full {
@@ -227,16 +274,21 @@ func (a addr) String() string  { return string(a) }
 func (c *Conn) LocalAddr() net.Addr  { return addr("local") }
 func (c *Conn) RemoteAddr() net.Addr { return addr("remote") }
 func (c *Conn) SetDeadline(t time.Time) error {
+	c.mu.Lock()
+	c.rdl, c.wdl = t, t
+	c.mu.Unlock()
 	return nil
 }
 func (c *Conn) SetReadDeadline(t time.Time) error {
 	c.mu.Lock()
+	c.rdl = t
 	c.log("rdeadline", 0, nil, nil)
 	c.mu.Unlock()
 	return nil
 }
 func (c *Conn) SetWriteDeadline(t time.Time) error {
 	c.mu.Lock()
+	c.wdl = t
 	c.log("wdeadline", 0, nil, nil)
 	c.mu.Unlock()
 	return nil
